@@ -113,6 +113,7 @@ def scn_survive(params):
     out = {"violations": [], "nontrivial": [], "stats": {"ordinary_traffic_runs": 1}, "evaluations": 0, "sets": {}}
 
     def judge(sim, p, label):
+        sim.judge_table_invariants = True
         h = sim.health(p)
         out["evaluations"] = sum(1 for ev in sim.k.log if ev[1] == "recv" and ev[2] == p.name)
         if h.startswith("sanitizer:") or h.startswith("signal:"):
